@@ -430,6 +430,44 @@ Section Elem.
       assert (r' = r) by (eapply resolve_det; eassumption). subst. exact E.
   Qed.
 
+  (* on the inputs where the unchanged code returns, the fix changes nothing *)
+  Theorem fixed_eq_unfixed t f :
+    cyclic_alias leaf tm t f = false ->
+    resolve_fx leaf tm (fuel_of tm) [] t f = resolve leaf tm (fuel_of tm) t f.
+  Proof.
+    unfold cyclic_alias. intros Hc.
+    destruct (detect leaf tm (fuel_of tm) [] t f) as [r'| |] eqn:E; [|discriminate|exfalso; eapply detect_total; exact E].
+    rewrite (detect_done _ _ _ _ _ E), (detect_done_fx _ _ _ _ _ E). reflexivity.
+  Qed.
+
+  (* the function the deciding model uses (resolve_model) is tied to the faithful recursion `resolve`:
+     it answers Ok r iff the code returns r, OutOfFuel iff the code never returns, and nothing else *)
+  Theorem resolve_model_unfixed t f :
+    c15_fixed_variant = false ->
+    (forall r, resolve_model leaf tm t f = Ok r <-> resolve leaf tm (fuel_of tm) t f = Ok r) /\
+    (resolve_model leaf tm t f = OutOfFuel <-> forall fuel, resolve leaf tm fuel t f = OutOfFuel) /\
+    (forall k, resolve_model leaf tm t f <> Fault k).
+  Proof.
+    intros Hv. unfold resolve_model. rewrite Hv.
+    destruct (detect leaf tm (fuel_of tm) [] t f) as [r'| |] eqn:E.
+    - pose proof (detect_done _ _ _ _ _ E) as Hd. repeat split.
+      + intros H. rewrite Hd. exact H.
+      + intros H. rewrite Hd in H. exact H.
+      + discriminate.
+      + intros H. rewrite H in Hd. discriminate.
+      + discriminate.
+    - pose proof (detect_diverge_sound _ _ _ E) as Hd. repeat split.
+      + discriminate.
+      + intros H. rewrite Hd in H. discriminate.
+      + intros _. exact Hd.
+      + discriminate.
+    - exfalso. eapply detect_total. exact E.
+  Qed.
+
+  Theorem resolve_model_fixed t f :
+    c15_fixed_variant = true -> resolve_model leaf tm t f = resolve_fx leaf tm (fuel_of tm) [] t f.
+  Proof. intros Hv. unfold resolve_model. rewrite Hv. reflexivity. Qed.
+
   (* ---------- stratified alias declarations never diverge ---------- *)
   Lemma union_names_multi l : union_names (TMulti l) = flat_map union_names l.
   Proof. induction l as [|x r IH]; [reflexivity|]. simpl in *. rewrite IH. reflexivity. Qed.
@@ -461,11 +499,11 @@ Section Elem.
   Theorem acyclic_alias_no_cycle t f : acyclic_alias tm -> cyclic_alias leaf tm t f = false.
   Proof.
     intros [rank Hrank]. destruct (cyclic_alias leaf tm t f) eqn:E; [|reflexivity].
-    apply cyclic_alias_exact in E.
+    pose proof (proj1 (cyclic_alias_exact t f) E) as E'.
     set (k := S (fold_right max 0%nat (map rank (union_names t)))).
     assert (Hb : forall m, In m (union_names t) -> (rank m < k)%nat).
     { intros m Hm. unfold k. induction (union_names t) as [|x r IH]; [destruct Hm|].
       simpl. destruct Hm as [<-|Hm]; [lia|]. specialize (IH Hm). lia. }
-    destruct (acyclic_resolves rank Hrank k t f Hb) as [r Hr]. rewrite E in Hr. discriminate.
+    destruct (acyclic_resolves rank Hrank k t f Hb) as [r Hr]. rewrite E' in Hr. discriminate.
   Qed.
 End Elem.
